@@ -101,13 +101,14 @@ func clsB(ok bool, err error) int {
 
 // runSequence executes one call list against a fresh transaction on dir and returns the result class of every call.
 // A panic inside the library is reported as class 9 for that call and ends the sequence.
-func runSequence(ctx context.Context, dir string, mode sop.TransactionMode, seq []int) (out []int, panicMsg string) {
+func runSequenceSpec(ctx context.Context, dir string, mode sop.TransactionMode, seq []callSpec) (out []int, panicMsg string) {
 	t, err := infs.NewTransaction(ctx, txOptions(dir, mode))
 	if err != nil {
 		return nil, "NewTransaction: " + err.Error()
 	}
 	var b btree.BtreeInterface[int, int]
-	for i, c := range seq {
+	for i, cs := range seq {
+		c := cs.C
 		r := func() (r int) {
 			defer func() {
 				if p := recover(); p != nil {
@@ -146,13 +147,13 @@ func runSequence(ctx context.Context, dir string, mode sop.TransactionMode, seq 
 			}
 			switch c {
 			case cAdd:
-				return clsB(b.Add(ctx, theKey, valueOfStep(i)))
+				return clsB(b.Add(ctx, cs.K, cs.V))
 			case cFind:
-				return clsB(b.Find(ctx, theKey, false))
+				return clsB(b.Find(ctx, cs.K, false))
 			case cUpdate:
-				return clsB(b.Update(ctx, theKey, valueOfStep(i)))
+				return clsB(b.Update(ctx, cs.K, cs.V))
 			case cRemove:
-				return clsB(b.Remove(ctx, theKey))
+				return clsB(b.Remove(ctx, cs.K))
 			}
 			return 8
 		}()
@@ -172,6 +173,7 @@ func runSequence(ctx context.Context, dir string, mode sop.TransactionMode, seq 
 // diskState is the abstract stored data: does store "s" exist, and its items.
 type diskState struct {
 	Exists bool
+	Count  int64 // the store's recorded item count
 	Items  [][2]int
 	Err    string
 }
@@ -184,6 +186,9 @@ func (d diskState) String() string {
 		return "absent"
 	}
 	var sb strings.Builder
+	if d.Count != int64(len(d.Items)) {
+		fmt.Fprintf(&sb, "count=%d", d.Count)
+	}
 	sb.WriteString("{")
 	for i, it := range d.Items {
 		if i > 0 {
@@ -251,9 +256,7 @@ func readDisk(ctx context.Context, dir string) (d diskState) {
 			return d
 		}
 	}
-	if int64(len(d.Items)) != b.Count() {
-		d.Err = fmt.Sprintf("count %d but %d items scanned", b.Count(), len(d.Items))
-	}
+	d.Count = b.Count()
 	sort.Slice(d.Items, func(i, j int) bool { return d.Items[i][0] < d.Items[j][0] })
 	return d
 }
